@@ -149,11 +149,10 @@ func (f *FrozenFunds) PunishFrozenFundsWithID(fromHeight uint64, toHeight uint64
 func (f *FrozenFunds) GetOrNew(height uint64) *Model {
 	ff := f.get(height)
 	if ff == nil {
-		ff = &Model{
+		ff = f.setToMapIfAbsent(height, &Model{
 			height:    height,
 			markDirty: f.markDirty,
-		}
-		f.setToMap(height, ff)
+		})
 	}
 
 	return ff
@@ -203,9 +202,20 @@ func (f *FrozenFunds) get(height uint64) *Model {
 	ff.height = height
 	ff.markDirty = f.markDirty
 
-	f.setToMap(height, ff)
+	return f.setToMapIfAbsent(height, ff)
+}
 
-	return ff
+// setToMapIfAbsent publishes a model loaded from the tree (or a new empty one) unless another goroutine
+// published one for the height since getFromMap missed: the published model may carry uncommitted changes.
+func (f *FrozenFunds) setToMapIfAbsent(height uint64, model *Model) *Model {
+	f.lock.Lock()
+	defer f.lock.Unlock()
+
+	if existing := f.list[height]; existing != nil {
+		return existing
+	}
+	f.list[height] = model
+	return model
 }
 
 func (f *FrozenFunds) markDirty(height uint64) {
